@@ -3,6 +3,10 @@
 # Rebuilds the harness (and with it fatfs from /repo's current working tree, hooks enabled) and runs one property.
 # Exit codes: 0 held, 1 violation (VIOLATION line on stdout), 2 machinery problem / inconclusive.
 set -u
+# a relative replay path is relative to the caller's directory
+if [ "${2:-}" = "--replay" ] && [ -n "${3:-}" ] && [ "${3#/}" = "$3" ]; then
+    set -- "$1" "$2" "$(pwd)/$3"
+fi
 cd "$(dirname "$0")/harness" || exit 2
 export CARGO_NET_OFFLINE=true
 LOG=$(mktemp /tmp/fv-build.XXXXXX)
